@@ -23,3 +23,8 @@ add("C06", "model_checking",
     "Every unary/binary operator over a 23-value set (all types, i64 extremes, empty and nested collections), every closure-taking operator x closure body x parameter list, and every operation sequence (well-formed or not) up to length 5 (quick) / 6 (thorough) over a 28-symbol alphabet is evaluated by the real stack machine inside catch_unwind and by the reference evaluator R-expr (i128 arithmetic, explicit type table, lazy closures, shadowing rule); table cells are also run through AuthorizerBuilder + authorize().",
     "R-expr is the definition; regex delegated to the regex crate on both sides; all/any over unordered sets with an erroring and a deciding element accepted either way.",
     "DESIGN.md §3 C06")
+add("C11", "model_checking",
+    "stateless exploration of all iteration orders of the engine's hash-based stores (every ranking of small key universes, deviation-bounded beyond) through a controlled order seam; oracle: singleton outcome set",
+    "For hand-written programs built to make order matter (bindings that error next to bindings that match, several error kinds, rule groups) and systematically generated error-free programs (every check kind x threshold x alternatives x policy list, authorizer-only and token with origins), every ranking of the recorded key universe (<= 6 keys: all k!; larger: all rankings within 2 deviations + seeded) is imposed on a freshly built, a cloned and a snapshot-restored authorizer; the set of observations (authorize result incl. policy index, ordered failed checks, error kind; sorted query results; iterations) must be a singleton. Each order is run twice and must replay identically.",
+    "Hash order modelled as one global key ranking per execution through the H1 seam; virtual clock frozen; 9 order-dependent programs are listed as known findings (first-binding short-circuit in find_match / check_match_all / run).",
+    "DESIGN.md §3 C11")
